@@ -135,7 +135,6 @@ for _p in PROPERTIES.values():
 # Miri: second execution engine + UB detector for the byte paths (bstr/memchr) and, for C20,
 # a result digest that must equal the native one
 MIRI = {"C04", "C06", "C20"}
-COVERAGE = set(PROPERTIES)
 
 
 # scale factors (percent) applied to the sizes of the SAMPLED families, tuned so that a quick
@@ -148,6 +147,9 @@ THOROUGH_SCALE = {"C01": 400, "C02": 300, "C03": 500, "C04": 150, "C05": 800, "C
                   "C19": 300, "C20": 100}
 
 
+COVERAGE = set(PROPERTIES)
+
+
 def stages_for(prop, tier):
     st = _stages_for(prop, tier)
     for s in st:
@@ -157,23 +159,34 @@ def stages_for(prop, tier):
 
 
 def _stages_for(prop, tier):
+    import os
+    harness = os.path.join(os.path.dirname(os.path.dirname(os.path.abspath(__file__))), "harness")
+    nounicode = {"name": "no-unicode", "kind": "native", "profile": "checked", "features": "", "target_dir": os.path.join(harness, "target-nounicode"),
+                 "budget_s": 240, "watchdog_s": 900}
     if tier == "quick":
-        st = [{"name": "checked", "kind": "native", "profile": "checked", "tier": "quick", "budget_s": 240, "watchdog_s": 900}]
+        st = [{"name": "checked", "kind": "native", "profile": "checked", "tier": "quick", "budget_s": 240, "watchdog_s": 900},
+              # release profile: no debug_assert!, wrapping arithmetic — observable behaviour can differ
+              {"name": "release", "kind": "native", "profile": "release", "tier": "quick", "budget_s": 240, "watchdog_s": 900,
+               "scale": max(50, QUICK_SCALE.get(prop, 100) // 2)}]
         if prop == "C20":
             # a second process: fresh hash seeds, result digests must agree
             st.append({"name": "process2", "kind": "native", "profile": "checked", "tier": "quick", "budget_s": 240, "watchdog_s": 900, "same_digest_as": "checked"})
+        if prop == "C16":
+            # the inline second-level diff tokenizes differently without the `unicode` feature
+            st.append(dict(nounicode, tier="quick"))
         return st
     st = [
         {"name": "checked", "kind": "native", "profile": "checked", "tier": "thorough", "budget_s": 1500, "watchdog_s": 3600},
-        # release profile: debug_assert!/overflow checks off — observable behaviour can differ
-        {"name": "release", "kind": "native", "profile": "release", "tier": "quick", "budget_s": 300, "watchdog_s": 900},
+        {"name": "release", "kind": "native", "profile": "release", "tier": "thorough", "budget_s": 1500, "watchdog_s": 3600,
+         "scale": max(50, THOROUGH_SCALE.get(prop, 100) // 3)},
     ]
     if prop == "C20":
         for i in range(2, 6):
             st.append({"name": "process%d" % i, "kind": "native", "profile": "checked", "tier": "thorough", "budget_s": 1500, "watchdog_s": 3600, "same_digest_as": "checked"})
-        st[1]["same_digest_as"] = None
+    if prop == "C16":
+        st.append(dict(nounicode, tier="thorough"))
     if prop in MIRI:
-        st.append({"name": "miri", "kind": "miri", "budget_s": 600, "watchdog_s": 1500})
+        st.append({"name": "miri", "kind": "miri", "budget_s": 900, "watchdog_s": 1800})
     if prop in COVERAGE:
         st.append({"name": "coverage", "kind": "coverage", "scale": 25, "budget_s": 300, "watchdog_s": 900})
     return st
